@@ -1,2 +1,40 @@
-(* placeholder: theorems are added below as they are proved *)
-From GV Require Import Base.Prelude.
+(* Properties/C07.v — parsing a line of the grammar and printing it reproduces the line.
+   Statements only; every proof is `exact`.  [render_line] (Model/Grammar.v) is the writer's
+   rendering of a line in one consistent style; [wf_feature] is the boolean grammar condition;
+   [isword] is CPython's \w table (Base/WordTable.v); the percent-quoting table is
+   [gen_to_quote], regenerated from /repo/gffutils/parser.py on every run. *)
+From GV Require Import Base.Prelude Base.PyStr Base.Utf8 Base.WordTable Model.DB Model.Parser Model.Grammar Gen.GenConst
+  Proofs.GenConstEquiv Proofs.C07Parse Proofs.C07Proofs.
+Open Scope N_scope.
+
+(* the attribute column: the inference path returns the attributes (decoded, in order) and the
+   canonical dialect of the style -- for all 36 styles, any number of attributes and values,
+   all unicode values allowed by the style *)
+Theorem C07_parse_attrs : forall st a, wf_attrs st a = true ->
+  split_infer isword (render_attrs st a) = (a, canon_dialect st a).
+Proof. exact (l_parse_attrs isword isword_ascii isword_eq isword_sp). Qed.
+Print Assumptions C07_parse_attrs.
+
+(* printing the attributes with that dialect (keep_order=True) gives the column back *)
+Theorem C07_print_attrs : forall st a, wf_attrs st a = true ->
+  reconstruct gen_to_quote a (canon_dialect st a) true false = render_attrs st a.
+Proof. rewrite gen_to_quote_eq. exact l_print_attrs. Qed.
+Print Assumptions C07_print_attrs.
+
+(* the whole line: feature_from_line yields the line's eight columns, coordinates ('.' -> None),
+   attributes, extra columns and dialect ... *)
+Theorem C07_parse_line : forall st f, wf_feature st f = true -> f_dialect f = canon_dialect st (f_attrs f) ->
+  feature_from_line isword (render_line st f) None true = Ok f.
+Proof. exact (l_parse_line isword isword_ascii isword_eq isword_sp). Qed.
+Print Assumptions C07_parse_line.
+
+(* ... and str(feature) is the line, byte for byte (extras, '.' coordinates, empty column) *)
+Theorem C07_print_identity : forall st f g, wf_feature st f = true -> f_dialect f = canon_dialect st (f_attrs f) ->
+  feature_from_line isword (render_line st f) None true = Ok g ->
+  feature_str gen_to_quote g = render_line st f.
+Proof.
+  rewrite gen_to_quote_eq. intros st f g Hwf Hcan Hparse.
+  rewrite (l_parse_line isword isword_ascii isword_eq isword_sp st f Hwf Hcan) in Hparse.
+  inversion Hparse. subst g. exact (l_print_line st f Hwf Hcan).
+Qed.
+Print Assumptions C07_print_identity.
